@@ -35,6 +35,7 @@ func iterBoth(it Iterator, c *lmdb.Cursor, integerKey bool, f iterBothFunc) erro
 	var itKey, dbKey, dbVal []byte
 	var err error
 	prevKey := make([]byte, 0, LMDBMaxKeySize)
+	havePrevKey := false
 
 	var flag uint = lmdb.First
 	for {
@@ -50,9 +51,13 @@ func iterBoth(it Iterator, c *lmdb.Cursor, integerKey bool, f iterBothFunc) erro
 				}
 			} else {
 				// Check to ensure the keys are in insert order
-				if cmpFunc(prevKey, itKey) >= 0 {
+				// The first key has no predecessor to compare with. An empty
+				// previous key must not be used for this, because it compares
+				// as equal to integer key 0 on MDB_INTEGERKEY DBIs.
+				if havePrevKey && cmpFunc(prevKey, itKey) >= 0 {
 					return fmt.Errorf("%s: %w", string(itKey), ErrNotSorted)
 				}
+				havePrevKey = true
 				prevKey = prevKey[:len(itKey)]
 				copy(prevKey, itKey)
 			}
